@@ -425,6 +425,9 @@ func replayViolation(prop string, fv FoundViolation) ([]Violation, []string, err
 					post := w.Log[len(w.Log)-1].Dump
 					vs = append(vs, c.check(w, pre, post, ev, preLen, listed)...)
 				}
+				if os.Getenv("VERIF_PRINT_KEY") != "" {
+					fmt.Fprintf(os.Stderr, "STATE-KEY %s\n", w.StateKey(c.Symmetry))
+				}
 				if c.Drain && w.Drain(200) {
 					w.log(Event{Kind: EvQuiescent, Dump: w.dump(), Detail: "drain"})
 					vs = append(vs, c.checkDrained(w)...)
